@@ -44,7 +44,7 @@ class LoopSpec:
 class Contract:
     def __init__(self, module, qual, prop, params, cases, pre=None, modifies=None, result=None, loops=None,
                  assumed=False, inline=False, key=None, replay=None, note="", frame_exempt=(), varargs=None,
-                 kwdefaults=None, props=None, axioms=None):
+                 kwdefaults=None, props=None, axioms=None, closure=None):
         self.module, self.qual, self.prop = module, qual, prop
         self.params = params          # list of (name, Type)
         self.cases = cases
@@ -60,6 +60,10 @@ class Contract:
         self.frame_exempt = frame_exempt
         self.props = props or [prop]
         self.axioms = axioms or (lambda E: [])   # definitional axioms of the spec functions used (assumed, never obliged)
+        # free variables of a NESTED function under contract: list of (name, Type), created like parameters when the function is
+        # verified, installed as variables of an enclosing scope and visible to the spec as E["name"] (frame: proved unchanged
+        # unless listed in `modifies`); they are not arguments at call sites
+        self.closure = closure or []
 
     @property
     def name(self):
